@@ -46,8 +46,8 @@ CHECKS = {
    text="All admissible sequences (depth 3 quick / 4 thorough; depth 4 for the 6-row shapes in the quick tier) of interface operations over boundary alphabets from seeds whose dense tails cross the 64-bit word boundary are applied to a real DenseBinaryMatrix, a real SparseBinaryMatrix and a 2-D array with undefined cells; all cells and all queries must agree in every state. The real solver is additionally run on a matrix that forwards every call to both implementations and the model, for encoding (K'<=101 quick / 500 thorough) and decoding traces, in release and debug-assertions builds.",
    note="Admissibility = preconditions read off the code; matrices whose dense tail was dropped are only exercised with get/set/swap/add/resize."),
  "C17": dict(level="model_checking", design="5/C17", technique="loom DPOR exploration of all interleavings of real threads on the real cache code (shadow manifest over /repo/src), plus explicit-state exploration of request histories on the real global cache (policy-agnostic invariants, time-limited requests) and exhaustive confusable-size pairs",
-   text="Eleven loom harnesses (same size, overlapping sizes, insert races eviction, hit races eviction, double eviction, sizes on the far side of the 250-symbol back-end threshold, large+small at capacity; 2-4 threads; unbounded DPOR where feasible, preemption bound 2-4 otherwise) run the real SourceBlockEncoder::new against the real cache compiled with loom primitives; every execution checks transparency and the cache invariants. Request histories (nodes = histories replayed on a cleared cache, merged on equal real contents; alphabet relative to the contents plus large sizes; seed prefixes around the capacity incl. full caches of large, re-requested plans) are explored to a depth bound; every request runs under a time limit (a call that never returns is a violation) and no eviction policy is assumed. Every ordered pair of confusable block sizes (rows sharing the systematic index, neighbouring rows, sizes padded to the same K') is requested on an empty cache in child processes.",
-   note="<= 4 threads; std Mutex internals trusted; loom failure replay = deterministic re-exploration of the named model.", engine="rqcheck+rqloom"),
+   text="Eleven loom harnesses (same size, overlapping sizes, insert races eviction, hit races eviction, double eviction, sizes on the far side of the 250-symbol back-end threshold, large+small at capacity; 2-4 threads; unbounded DPOR where feasible, preemption bound 2-4 otherwise) run the real SourceBlockEncoder::new against the real cache compiled with loom primitives; every execution checks transparency and the cache invariants. Request histories (nodes = histories replayed on a cleared cache, merged on equal real contents; alphabet relative to the contents plus large sizes; seed prefixes around the capacity incl. full caches of large, re-requested plans) are explored to a depth bound; every request runs under a time limit (a call that never returns is a violation) and no eviction policy is assumed. Every ordered pair of confusable block sizes (rows sharing the systematic index, neighbouring rows, sizes padded to the same K') is requested on an empty cache in child processes. Beside these exhaustive parts a non-exhaustive monitor (6 free-running OS threads against references) is run whose failures, not its silence, count.",
+   note="<= 4 threads; std Mutex internals trusted; loom only sees synchronisation routed through the hook's cfg-switched imports; loom failure replay = deterministic re-exploration of the named model.", engine="rqcheck+rqloom"),
  "C18": dict(level="exploration", design="5/C18", technique="complete enumeration of windows (s,n), whole repair streams and plan instances; differential oracle (window vs singles, plan vs plan)",
    text="All windows with s+n<=24, long windows around every length at which a strategy could switch (L, K', K, 2L, 64, 256, 1000) and the windows at the 2^24 end for every K of the ladder, two complete 2^24-K streams under two tilings, six ways of obtaining an encoder per K, the same requests repeated in other orders on the same encoder objects, the per-object packet list over a configuration box, and every block of every object (box and tall objects with every symbol count 2..330/1300 in 2..5/7 blocks) against a stand-alone block encoder and an encoder with a freshly generated plan for the same bytes.",
    note="Requests beyond ESI 2^24-1 are outside the property and not judged."),
